@@ -240,10 +240,14 @@ def _via_file(ctx, cmd, inputs, params, fcols, want, scale):
         _shared["dir"] = ctx.scratch()
     d = _shared["dir"]
     with open(os.path.join(d, "data.csv"), "w") as f:
-        f.write(",".join("c%d" % i for i in range(len(inputs))) + "\n")
+        hdrs = ["c%d" % i for i in range(len(inputs))]
+        if _shared["n"] % 3 == 1 and len(inputs) <= 6:
+            # column names that differ in letter case or in surrounding blanks only are different columns
+            hdrs = ["T", "t", " T", "t ", "TT", "tt"][:len(inputs)]
+        f.write(",".join(hdrs) + "\n")
         for r in range(len(cells[0])):
             f.write(",".join("-9999" if col[r] is None else repr(col[r]) for col in cells) + "\n")
-    lines = ['R%d = EEMSRead(InFileName = "data.csv", InFieldName = c%d, MissingVal = -9999, DataType = %s)' % (i, i, "Integer" if a.dtype.kind in "iu" else "Float") for i, a in enumerate(inputs)]
+    lines = ['R%d = EEMSRead(InFileName = "data.csv", InFieldName = "%s", MissingVal = -9999, DataType = %s)' % (i, hdrs[i], "Integer" if a.dtype.kind in "iu" else "Float") for i, a in enumerate(inputs)]
     names = ["R%d" % i for i in range(len(inputs))]
     style = arr.INPUT_STYLE.get(cmd, "list")
     args = []
